@@ -13,7 +13,8 @@
    - visit_AssignBlock: (Markup if context.eval_ctx.autoescape else identity)(concat(buf)).
    - visit_FilterBlock: Markup(concat(buf)) by the compile-time mode, filter applied, result
      sent through the same escape/str selection as an output child.
-   - visit_CallBlock: the macro's return value is written as it is.
+   - visit_CallBlock: the macro's return value (Markup by the call-time flag) goes through the same
+     escape/str selection as an output child (fix 34828d4).
    - ScopedEvalContextModifier ({% autoescape e %}): a constant argument changes the
      compile-time flag, a non-constant one makes the frame volatile; the runtime flag
      context.eval_ctx.autoescape is assigned, both are restored at the end of the block.
@@ -221,7 +222,7 @@ Section Eval.
           match lookup_mac mu m with None => None | Some (ps, mbody, ce') =>
           match bind ps vs with None => None | Some pr =>
           match eval_ss n' ce' rt mu (Some (CC body ce)) (pr ++ r) mbody with None => None
-          | Some (o, _, _) => Some (o, r, mu)        (* raw write of Markup(o) / o *)
+          | Some (o, _, _) => Some (out_piece (on_now b0 ce rt) (wrap rt o), r, mu)   (* escape / str of the macro's result *)
           end end end end
       | SFilterBlock f args body =>
           match eval_ss n' ce rt mu k r body with None => None | Some (o, _, _) =>
